@@ -157,10 +157,11 @@ def present(x, y, node, seed):
     b = x.sel(lat=[l for l in x.lat.values if l != lat_i])
     if kind == "ds":
         # two variables on the shared (time, lat, lon) grid: each is NaN (i.e. fully missing) outside its own latitudes
-        ds = xr.Dataset({"v0": a.rename("v0"), "v1": b.rename("v1")})
+        ds = xr.Dataset({"v1": b.rename("v1"), "v0": a.rename("v0")} if node.get("vswap") else {"v0": a.rename("v0"), "v1": b.rename("v1")})
         return _samples(ds, order, sd), y
     # with two sample dimensions the two list items store them in different orders
-    return [_samples(a, order, sd, False), _samples(b.rename("field_b"), order, sd, True)], y
+    order_a = ORDERS[node["order_a"]] if "order_a" in node else order
+    return [_samples(a, order_a, sd, False), _samples(b.rename("field_b"), order, sd, True)], y
 
 
 def _samples_back(sc):
@@ -243,7 +244,7 @@ def _weights_for(px, x, seed):
     return W
 
 
-def fit_and_canon(model, node, seed, spec, weights=False, ragged=False):
+def fit_and_canon(model, node, seed, spec, weights=False, ragged=False, want_obj=False):
     cplx = model == "ComplexEOF"
     x, y = base_data(seed, spec, cplx, ragged)
     px, py = present(x, y, node, seed)
@@ -282,7 +283,112 @@ def fit_and_canon(model, node, seed, spec, weights=False, ragged=False):
             out["filter_patterns"] = canon_field(obj.filter_patterns())
         else:
             out["spectrum"] = obj.explained_variance().rename(None)
+    return (out, obj) if want_obj else out
+
+
+# ----------------------------------------------------------------------------- second entry point: new data
+# A model fitted on presentation P is handed ONE fixed held-out data set (6 samples, time labels 12..17) in the fit layout
+# and in every other presentation that is legal for new data of that model; the scores must be the same, label by label.
+HELD, HELD_T0 = 6, 12
+TRANSFORMS = ["EOF", "ComplexEOF", "SparsePCA", "POP", "EOFRotator", "CPCCA", "MCA", "MCARotator", "multiCCA", "MCA_allpc", "CPCCA_allpc", "RDA_intpc", "CPCCARotator_allpc"]
+
+
+def held_out(seed, cplx):
+    X = D.make_matrix(HELD, 6, "geometric", 1.0, cplx, seed, salt=5)
+    Y = D.make_matrix(HELD, 4, "geometric", 1.0, False, seed, salt=6)
+    t = np.arange(HELD_T0, HELD_T0 + HELD)
+    x = D.da_grid(X, 3, 2, lats=[-50.0, 10.0, 65.0], name="field").assign_coords(time=t)
+    y = D.da_2d(Y, "time", "station", fcoord=["a", "b", "c", "d"], name="yfield").assign_coords(time=t)
+    return x, y
+
+
+def new_presentations(P, model):
+    """(edge, node) list: the fit layout first, then every presentation of the new data one edge away from it. The
+    container kind, the names of the sample dimensions and the model's internal names are fixed by the fit."""
+    q0 = dict(P, psam=0)
+    out = [("fit_layout", q0)]
+    for k in ("order", "plat", "plon"):
+        out += [(k, dict(q0, **{k: v})) for v in range(DOMAIN[k]) if v != P[k]]
+    if model not in NO_SAMPLE_PERM:
+        out += [("psam", dict(q0, psam=v)) for v in (1, 2)]
+    if P["sdims"] in (1, 2):  # the two sample dimensions stored the other way round
+        out.append(("sample_storage", dict(q0, sdims=3 - P["sdims"])))
+    sp = SPLITS[P["split"]]
+    if sp is not None and sp[0] == "ds":
+        out.append(("variable_order", dict(q0, vswap=1)))
+    if sp is not None and sp[0] == "list":
+        out += [("item_layout", dict(q0, order_a=v)) for v in ((P["order"] + 1) % len(ORDERS), (P["order"] + 3) % len(ORDERS))]
     return out
+
+
+def new_scores(model, obj, px, py, full=True):
+    """Every way the fitted model maps new data to scores."""
+    out = {}
+    if model in CROSS:
+        sx, sy = obj.transform(X=px, Y=py)
+        out["transform_x"], out["transform_y"] = sx, sy
+        out["transform_x_only"] = obj.transform(X=px)
+        if full:
+            out["transform_y_only"] = obj.transform(Y=py)
+        out["predict"] = obj.predict(px)
+    elif model == "multiCCA":
+        s = obj.transform([px, py])
+        out["transform_x"], out["transform_y"] = s[0], s[1]
+    else:
+        out["transform"] = obj.transform(px)
+    return {k: _samples_back(v.rename(None)) for k, v in out.items()}
+
+
+@functools.lru_cache(maxsize=None)
+def base_new(model, seed):
+    with warnings.catch_warnings():
+        warnings.simplefilter("ignore")
+        canon, obj = fit_and_canon(model, dict(DEFAULT), seed, "geometric", want_obj=True)
+        x, y = held_out(seed, model == "ComplexEOF")
+        px, py = present(x, y, dict(DEFAULT), seed)
+        return canon, new_scores(model, obj, px, py)
+
+
+def run_new_data(case, seed):
+    model, P = case["model"], case["node"]
+    tol = 1e-7 if model in ITERATIVE else 1e-9
+    feats = dict(_edge_features(P), weights=False, ragged=False)
+    V = []
+    with warnings.catch_warnings():
+        warnings.simplefilter("ignore")
+        ref_canon, ref_new = base_new(model, seed)
+        canon, obj = fit_and_canon(model, P, seed, "geometric", want_obj=True)
+        x, y = held_out(seed, model == "ComplexEOF")
+        res = {}
+        for edge, q in new_presentations(P, model):
+            px, py = present(x, y, q, seed)
+            res.setdefault(edge, []).append((q, new_scores(model, obj, px, py, full=edge in ("fit_layout", "psam", "sample_storage"))))
+    own = res["fit_layout"][0][1]
+    # (1) the model fitted on P agrees with the base node's model on the held-out data (both in their fit layout)
+    for k, a in ref_new.items():
+        b = own[k]
+        if model in PHASE_FREE:
+            b = _align_phase(ref_canon, canon, k, a, b)
+        elif model == "POP":
+            b = _align_own_phase(a, b)
+        ds = O.compare_da(a, b, tol, k, attrs=False, name=False)
+        if ds and not _only_sign_ties(a, b, tol):
+            V.append(viol("new_data_scores_differ_from_base_model", model, "fitted on %s, new data in the fit layout: %s" % (P, "; ".join(ds[:2])), answer=k, new_data="fit_layout", **feats))
+    # (2) ONE fitted model, the same new data in another presentation: no freedom at all
+    n = 1
+    for edge, lst in res.items():
+        if edge == "fit_layout":
+            continue
+        bad = {}
+        for q, got in lst:
+            n += 1
+            for k, b in got.items():
+                ds = O.compare_da(own[k], b, tol, k, attrs=False, name=False)
+                if ds:
+                    bad.setdefault(k, "new data as %s: %s" % ({c: v for c, v in q.items() if v != P.get(c, 0) and c != "names"}, ds[0]))
+        for k, msg in bad.items():
+            V.append(viol("new_data_presentation_dependent", model, "fitted on %s; %s" % (P, msg), answer=k, new_data=edge, **feats))
+    return dict(violations=V, outcome="violation" if V else "ok", nontrivial=not V, states=n, transitions=n - 1 + ndepth(P), traces=n, info=dict(depth=ndepth(P), sdims=P["sdims"], ragged=False, model=model, entry="new_data"))
 
 
 @functools.lru_cache(maxsize=None)
@@ -320,6 +426,12 @@ def cases(tier, seed):
         for m in MODELS + RAGGED_EXTRA:
             if applicable(m, n) and (ndepth(n) <= d or (m in ("EOF", "MCA_allpc") and n["sdims"] != 0)):
                 out.append(dict(node=n, model=m, spec="geometric", ragged=True))
+    # second entry point: the model fitted on every node of depth <= 1 (quick) / 2 is handed held-out data in the fit layout
+    # and in every presentation one edge away from it
+    for n in nodes(1 if tier == "quick" else 2):
+        for m in TRANSFORMS:
+            if applicable(m, n):
+                out.append(dict(node=n, model=m, spec="geometric", entry="new_data"))
     # degenerate spectrum: projector comparison, EOF only, depth 1 (quick) / 2
     for n in nodes(1 if tier == "quick" else 2):
         out.append(dict(node=n, model="EOF", spec="flat_pair"))
@@ -331,6 +443,8 @@ def _edge_features(node):
 
 
 def run_case(case, seed):
+    if case.get("entry") == "new_data":
+        return run_new_data(case, seed)
     model, node, spec = case["model"], case["node"], case["spec"]
     V = []
     feats = _edge_features(node)
